@@ -37,11 +37,32 @@ HIST = {
  "C16-b3": "MISSED by the check as it stood; caught after: every format-string case also evaluated inside freeze (two forms); theorem fmtSlots_flags_value_only",
  "C17-a3": "MISSED by the check as it stood; caught after: generator form recursive-local-function (optionally shadowing an outer function of the same name)",
  "C17-b3": "MISSED by the check as it stood; caught after: generator form while-cond-declares (a name declared by the while condition and used in the body, optionally shadowing an outer variable)",
+ "C01-a4": "MISSED by the check as it stood; caught after: annotated variables with rejected whole-variable writes of every statement form in the reference semantics (keys ref:typed-*)",
+ "C01-b4": "MISSED by the check as it stood; caught after: the with-default op-assign form with side-effecting / raising defaults on present and absent keys",
+ "C02-a4": "the families cond_switch / cond_switch_pop were added from the author's description before the first run; caught",
+ "C02-b4": "the families concat_shared_rhs / concat_rows_flatten were added from the author's description before the first run; caught",
+ "C03-b4": "MISSED by the check as it stood; caught after: precedence op-assignments (succeeding, failing under try, with an operator function that evaluates a chain) among the operand effects; theorem failed_precedence_opassign_preserves",
+ "C04-b4": "MISSED by C04 as it stood (C17's handwritten minus-call-form case catches it); caught by C04 after: every application form also evaluated inside freeze (frozen-params / frozen-consts); this sweep found and led to the fix 1d7356e",
+ "C05-a4": "MISSED by the check as it stood; caught after: generator form call-order (argument reassigns the callee variable, callee and argument both print, undeclared callee raises before the argument runs)",
+ "C06-a4": "MISSED by C06 as it stood (C07 catches it); caught by C06 after: vectorised forms (vec-scalar, scalar-vec, vec-vec) against their elementwise reference",
+ "C06-b4": "MISSED by the check as it stood; caught after: unary - and ~ on every operand also evaluated under freeze (also C17's construct corpus)",
+ "C08-a4": "MISSED by the check as it stood; caught after: comparison operators in call form with 0-5 operands and splats; theorem call_form_is_neighbour_conjunction",
+ "C08-b4": "MISSED by the check as it stood; caught after: min / max in every form incl. the catamorphism forms; theorem foldExtremum_eq",
+ "C09-b4": "MISSED by the check as it stood; caught after: dict == / != on the same variable, aliases, un-shared copies and separately built dicts with NaN among the values; theorem dict_eq_not_reflexive_with_nan_value",
+ "C11-b4": "MISSED by the check as it stood; caught after: function-driven streams with step functions that stop or raise after k steps (element-error layer of the model); theorem iterate_yields_before_step",
+ "C12-a4": "MISSED by the check as it stood; caught after: for-clause patterns whose annotation / callee depends on loop-carried state (Impl/PatternFor.lean, Spec/MatchFor.lean); theorem for_eq_spec",
+ "C13-a4": "MISSED by the check as it stood; caught after: six call forms for every two-argument builtin and call-counting predicates; theorems any_short_circuits, all_short_circuits",
+ "C14-a4": "MISSED by the check as it stood; caught after: lazy streams nested inside containers in the pool and two-level index-assignment templates",
+ "C14-b4": "MISSED by the check as it stood; caught after: templates with two struct definitions of the same name and different arity",
+ "C16-a4": "MISSED by C16 as it stood (C14 catches the panic); caught by C16 after: unary-minus production and the machine-word boundaries in all productions through every integer codec",
+ "C16-b4": "MISSED by the check as it stood; caught after: nasty-character list at every position through every text codec and a 2000-scalar sweep",
+ "C17-a4": "MISSED by the check as it stood; caught after: the construct corpus (frozen vs unfrozen on one or more lambdas per syntactic construct)",
+ "C17-b4": "MISSED by the check as it stood; caught after: the construct corpus (nested freeze entries)",
 }
 def main():
     for d in sorted(os.listdir(os.path.join(ROOT, "seeded"))):
         p = os.path.join(ROOT, "seeded", d)
-        if not (d.endswith("2") or d.endswith("3")) or not os.path.isdir(p):
+        if not (d.endswith("2") or d.endswith("3") or d.endswith("4")) or not os.path.isdir(p):
             continue
         rnd = int(d[-1])
         prop = d.split("-")[0]
